@@ -67,3 +67,31 @@ Example C11_nonvacuous :
   map (fun e => dlookup e (docs (drun [Fwd 1; Obj 10; Obj 11; Back 2; Fwd 3; Fwd 4; Obj 12]))) [10; 11; 12] = [Some 1; Some 2; Some 4].
 Proof. vm_compute. repeat split. Qed.
 Print Assumptions C11_nonvacuous.
+
+(* the value of a named constant (C11/Param.v, read_parameter_value): for every well-formed value -- balanced parentheses and brackets,
+   no comma or `!` outside them -- and whatever follows the comma or comment that ends it, hover restates the value (up to blanks);
+   also behind the shape of an array constant *)
+From FV Require Import C11.Param.
+Theorem parameter_value_restated : forall lead v stop rest, wf_value v -> head_not 62%N v -> normalise v <> [] ->
+  (N.eqb stop 44 || N.eqb stop 33) = true ->
+  read_parameter_value (repeat 32%N lead ++ 61%N :: v ++ stop :: rest) = Some (normalise v).
+Proof. exact value_read. Qed.
+Print Assumptions parameter_value_restated.
+
+Theorem array_parameter_value_restated : forall lead shape gap v stop rest, inner_ok shape -> wf_value v -> head_not 62%N v -> normalise v <> [] ->
+  (N.eqb stop 44 || N.eqb stop 33) = true ->
+  read_parameter_value (repeat 32%N lead ++ 40%N :: shape ++ 41%N :: repeat 32%N gap ++ 61%N :: v ++ stop :: rest) = Some (normalise v).
+Proof. exact value_read_array. Qed.
+Print Assumptions array_parameter_value_restated.
+
+(* non-vacuity: 2*(3+4) is a well-formed value *)
+Example parameter_value_nonvacuous :
+  wf_value (s2l " 2*(3+4)") /\ read_parameter_value (s2l " = 2*(3+4), n2 = max(1, 2)") = Some (s2l "2*(3+4)").
+Proof.
+  split; [|vm_compute; reflexivity].
+  change (s2l " 2*(3+4)") with ([32; 50; 42]%N ++ 40%N :: [51; 43; 52]%N ++ 41%N :: []).
+  repeat (apply wv_char; [reflexivity|reflexivity|reflexivity|]). cbn [app].
+  apply (wv_group 40%N [51; 43; 52]%N 41%N []); [reflexivity|reflexivity| |constructor].
+  repeat (apply in_char; [reflexivity|]). constructor.
+Qed.
+Print Assumptions parameter_value_nonvacuous.
